@@ -45,6 +45,7 @@ type c17Case struct {
 var c17Points = []string{
 	"common.DeadlineChan.Recv.enter", "common.DeadlineChan.Recv.afterPoll", "common.DeadlineChan.Recv.afterClosedCheck",
 	"common.DeadlineChan.Recv.beforeWait", "common.DeadlineChan.Send.enter", "common.DeadlineChan.Close.enter",
+	"common.DeadlineChan.SetDeadline.afterClosedCheck", "common.DeadlineChan.Cancel.afterClosedCheck",
 }
 
 var c17OpNames = []string{"Send", "Recv", "SetDeadline", "Cancel", "Close"}
